@@ -1,7 +1,7 @@
 (* C20 -- property theorems only. *)
 From Coq Require Import List NArith Bool.
 Import ListNotations.
-Require Import Verif.Lib.Wire Verif.Lib.C20Types Verif.Gen.Facts_C20 Verif.Model.C20 Verif.Proofs.C20 Verif.Proofs.C20_commit Verif.Proofs.C20_rel Verif.Proofs.C20_wf Verif.Proofs.C20_gen.
+Require Import Verif.Lib.Wire Verif.Lib.C20Types Verif.Gen.Facts_C20 Verif.Model.C20 Verif.Proofs.C20 Verif.Proofs.C20_commit Verif.Proofs.C20_rel Verif.Proofs.C20_wf Verif.Proofs.C20_gen Verif.Proofs.C20_ainfo.
 Require Verif.Model.C04.
 
 Theorem C20_keys_faithful : forall s k f,
@@ -25,6 +25,35 @@ Theorem C20_sites_wired : forall s,
   exists w, In w sites_wiring /\ fst w = s_func s ++ [46%N] ++ s_var s /\ snd w = (true, true).
 Proof. exact sites_wired. Qed.
 Print Assumptions C20_sites_wired.
+
+(* the entry discriminator of every site depends on every parameter that the discriminator of the entry-carrying
+   action depends on (regenerated slices of both expressions): the entry key determines the conflict key *)
+Theorem C20_entry_key_determines_action_key : forall s,
+  In s sites ->
+  exists r, In r sites_disc /\ fst r = s_func s ++ [46%N] ++ s_var s /\
+            forall p, In p (fst (snd r)) -> mem_text p (snd (snd r)) = true.
+Proof. exact entry_key_determines_action_key. Qed.
+Print Assumptions C20_entry_key_determines_action_key.
+
+(* an executed entry whose key no other executed entry shares is what the introspector holds after the commit *)
+Theorem C20_entry_not_displaced : forall executed s' i rs,
+  commit_register true init executed = Ok s' ->
+  In (i, rs) (concat executed) ->
+  (forall j rs', In (j, rs') (concat executed) -> icat j = icat i -> idisc j = idisc i -> (j, rs') = (i, rs)) ->
+  lookup s' (icat i) (idisc i) = Some i.
+Proof. exact entry_not_displaced. Qed.
+Print Assumptions C20_entry_not_displaced.
+
+(* when the entry key is an injective function of the conflict key, executed actions with pairwise distinct conflict
+   keys (what conflict resolution leaves) all keep their entries *)
+Theorem C20_injective_keys_keep_entries : forall (acts : list (text * (intr * list relop))) (f : text -> text) s',
+  (forall a b, f a = f b -> a = b) ->
+  NoDup (map fst acts) ->
+  (forall a i rs, In (a, (i, rs)) acts -> idisc i = f a) ->
+  commit_register true init (map (fun x => [snd x]) acts) = Ok s' ->
+  forall a i rs, In (a, (i, rs)) acts -> lookup s' (icat i) (idisc i) = Some i.
+Proof. exact injective_keys_keep_entries. Qed.
+Print Assumptions C20_injective_keys_keep_entries.
 
 Theorem C20_only_executed_are_recorded : forall executed s' c d,
   commit_register true init executed = Ok s' ->
@@ -196,3 +225,23 @@ Theorem C20_remove_erases_generated : forall ops c d s',
   snd (gen_get s' c d) = Ok None.
 Proof. exact remove_erases_generated. Qed.
 Print Assumptions C20_remove_erases_generated.
+
+(* ---- action info (action_method's wrapper, action_info): the stack is restored on every exit *)
+Theorem C20_ainfo_stack_balanced : forall zc c stk site, fst (run_call zc stk site c) = stk.
+Proof. exact stack_balanced. Qed.
+Print Assumptions C20_ainfo_stack_balanced.
+
+(* every entry produced by a statement made on an idle configurator -- through any nesting of action methods, with or
+   without `_info` of their own, failing or not -- carries the info of the statement itself *)
+Theorem C20_statement_entries_point_at_statement : forall given body fails site,
+  Forall (eq (info_of given site)) (fst (snd (run_call None [] site (Call given body fails)))).
+Proof. exact statement_entries_point_at_statement. Qed.
+Print Assumptions C20_statement_entries_point_at_statement.
+
+(* histories on one long-lived configurator: whatever failed before, every statement's entries carry its own info and
+   the stack is empty again afterwards *)
+Theorem C20_history_statements_point_at_themselves : forall cs,
+  fst (run_statements None [] cs) = [] /\
+  Forall2 (fun c o => Forall (eq (own_info c)) o) cs (snd (run_statements None [] cs)).
+Proof. exact history_statements_point_at_themselves. Qed.
+Print Assumptions C20_history_statements_point_at_themselves.
